@@ -840,3 +840,66 @@ def rule_query_scoped_decomposition(ctx):
             whole = any(callee_matches(callee_of(c), r"ArgumentSet::iter$|AAFramework::argument_set$") and not any(callee_matches(callee_of(c2), r"ArgumentSet::get_argument$") for c2 in calls) for c in calls)
             r.check(lk in ("FULL", "PARTIAL") and not whole, "%s|merge" % b.id, "merged-list:%s%s" % (lk, "+whole-set" if whole else ""), "the merged components are those of the listed arguments", "the search runs on the merged components of %s, not of the listed arguments only" % ("every argument of the framework" if whole else "something that is not the query list"), s.loc())
     r.floor(n, 3, "calls of merged_connected_components_of in the solvers")
+
+
+def rule_maximal_result_from_search(ctx):
+    """C01: what a maximal-extension computer hands out"""
+    prog = ctx.prog
+    from ..prov import prov, show, leaves
+    from .grounded import inherited_conditions, _cond_trees
+
+    r = ctx.rule(
+        "maximal-result-from-the-search",
+        "the sets a MaximalExtensionComputer hands out (`compute_maximal`, `current`, `take_current`) are read from its own search state (the field "
+        "holding the current extension) and from nothing else; `compute_maximal` returns only once the state is Maximal",
+    )
+    adt = prog.adt(MEC)
+    if not r.require_anchor(adt, "type " + MEC):
+        return
+    ext_fields = {f["name"] for v in adt["variants"] for f in v["fields"] if re.search(r"Vec<&.*(Argument|Label)<", f["ty"])}
+    n = 0
+    for b in sorted(prog.lib_bodies(), key=lambda x: x.id):
+        if b.kind == "closure" or not b.impl or b.impl.get("self_adt") != MEC or b.impl.get("trait"):
+            continue
+        if not re.search(r"^(alloc::vec::Vec<&|&\[&).*(Argument|Label)<", b.ret_ty):
+            continue
+        n += 1
+        trees = list(prov(prog, b, {"l": 0, "p": []}))
+        bad = []
+        und = False
+        for e in trees:
+            ls = [l for l in leaves(e)]
+            flds = {l[3][0] for l in ls if l[0] == "param" and l[2] == 1 and l[3]}
+            if any(l[0] in ("?", "var") for l in ls):
+                und = True
+            elif not flds or not flds <= ext_fields:
+                bad.append((e, flds))
+        anchor = b.id + "|result"
+        if bad and len(bad) == len(trees):
+            r.violation(anchor, "result-source:%s" % sorted(bad[0][1]), "%s never returns the set held by the search (%s) but %s: a set that no SAT call vouched for is handed out as an extension" % (b.path.rsplit("::", 1)[-1], "/".join(sorted(ext_fields)), show(bad[0][0])[:100]), b.loc())
+        elif bad:
+            # a shortcut that answers without the search can be right (an empty framework) or wrong (a lone self-attacking argument)
+            r.ok(anchor, "NOT decided: %s can also return %s, which is not read from the search state (%s); whether that shortcut is an extension is a fact about the semantics" % (b.path.rsplit("::", 1)[-1], show(bad[0][0])[:100], "/".join(sorted(ext_fields))), b.loc())
+        elif und:
+            r.ok(anchor, "NOT decided: a returned value is not followed to its source", b.loc())
+        else:
+            r.ok(anchor, "returns the set held by the search state only", b.loc())
+        # a method that runs the search to its end: returns under state == Maximal
+        if any(callee_matches(callee_of(s), r"MaximalExtensionComputer::compute_next$") for s in b.calls()):
+            for s in b.sites():
+                nd = s.node
+                if s.si is None and nd["k"] == "return":
+                    pass
+            rets = [bb for bb in b.reachable if b.blocks[bb]["term"]["k"] == "return"]
+            for bb in rets:
+                conds = _cond_trees(prog, inherited_conditions(prog, b, bb))
+                st = [(c, t) for c, t in conds if any(l[0] == "param" and l[2] == 1 and l[3] and "state" in l[3][0] for l in leaves(c))]
+                if not st:
+                    r.ok(anchor + "|state", "NOT decided: %s has a return that no test of the state governs" % b.path.rsplit("::", 1)[-1], b.loc())
+                else:
+                    okst = any((c[0] == "call" and c[1].endswith("PartialEq::ne") and t is False) or (c[0] == "call" and c[1].endswith("PartialEq::eq") and t is True) for c, t in st) and any("Maximal" in repr(c) for c, t in st)
+                    if okst:
+                        r.ok(anchor + "|state", "returns only when the state is Maximal", b.loc())
+                    else:
+                        r.ok(anchor + "|state", "NOT decided: the state test governing the return is not of a recognised form (%s)" % show(st[0][0])[:80], b.loc())
+    r.floor(n, 2, "methods of the computer handing out a set")
